@@ -83,7 +83,8 @@ ParseHeadline(s) ==
 (* indentation).  Returns the value and the position after it.              *)
 (***************************************************************************)
 NoVal == [ok |-> FALSE, rule |-> "entry", kind |-> "", a |-> 0, b |-> 0, canon |-> "", end |-> 0,
-          qFrom |-> 0, qTo |-> 0, unspec |-> FALSE, loose |-> FALSE]
+          qFrom |-> 0, qTo |-> 0, unspec |-> FALSE, loose |-> FALSE,
+          sh12 |-> FALSE, eh12 |-> FALSE, spaced |-> FALSE, nq |-> 0, tFrom |-> 0, tTo |-> 0]
 
 ParseValue(s) ==
     LET te  == FindIn(s, 1, SpTab)               \* end of first token (exclusive)
@@ -111,14 +112,16 @@ ParseValue(s) ==
                       IN  IF \E i \in 1..Len(q) : Ch(q, i) # "?" THEN NoVal
                           ELSE [NoVal EXCEPT !.ok = TRUE, !.rule = "", !.kind = "open", !.a = st.off,
                                              !.canon = FormatTime(st.off, st.h12) \o sp \o q,
-                                             !.end = qe, !.qFrom = a0, !.qTo = qe - 1, !.loose = loose]
+                                             !.end = qe, !.qFrom = a0, !.qTo = qe - 1, !.loose = loose,
+                                             !.sh12 = st.h12, !.spaced = spaced, !.nq = Len(q)]
                  ELSE LET ee == FindIn(s, a0, SpTab)
                           et == ParseTime(Mid(s, a0, ee - 1))
                       IN  IF ~et.ok THEN NoVal
                           ELSE IF et.off < st.off THEN [NoVal EXCEPT !.rule = "range-order"]
                           ELSE [NoVal EXCEPT !.ok = TRUE, !.rule = "", !.kind = "range", !.a = st.off, !.b = et.off,
                                              !.canon = FormatTime(st.off, st.h12) \o sp \o FormatTime(et.off, et.h12),
-                                             !.end = ee, !.loose = loose]
+                                             !.end = ee, !.loose = loose, !.sh12 = st.h12, !.eh12 = et.h12,
+                                             !.spaced = spaced, !.tFrom = a0, !.tTo = ee - 1]
 
 IndentOf(s) == IF StartsWith(s, "    ") THEN "    " ELSE IF StartsWith(s, "   ") THEN "   "
                ELSE IF StartsWith(s, "  ") THEN "  " ELSE IF StartsWith(s, TAB) THEN TAB ELSE ""
@@ -158,7 +161,7 @@ EntriesFrom(ls, i, ind, acc, hasOpen) ==
                        valFrom |-> Len(ind) + 1, valTo |-> Len(ind) + v.end - 1,
                        qFrom |-> IF v.qFrom = 0 THEN 0 ELSE Len(ind) + v.qFrom,
                        qTo |-> IF v.qTo = 0 THEN 0 ELSE Len(ind) + v.qTo,
-                       loose |-> v.loose]
+                       loose |-> v.loose, sh12 |-> v.sh12, eh12 |-> v.eh12, spaced |-> v.spaced, nq |-> v.nq]
         IN  IF v.kind = "open" /\ hasOpen
             THEN [entries |-> acc, err |-> [line |-> i, rule |-> "second-open-range"], unspec |-> FALSE]
             ELSE IF badC # {}
